@@ -379,6 +379,12 @@ theorem mem_fieldsOfS {c : Ctx} {pfx : String} {abs : Bool} {sels : List Sel} {f
 /-- no spread of a fragment on `ty` itself in the selection set -/
 def noBAt (q : Query) (ty : TypeId) (sub : List Sel) : Bool := !(sub.any (isBSpread q ty))
 
+/-- a lone spread of a fragment on the abstract type itself is one -/
+theorem noBAt_lone_false {s : Schema} {q : Query} {o : Options} {ty : TypeId} {g : Nat}
+    (h : fragOkB s q o ty g = true) : noBAt q ty [Sel.spread g] = false := by
+  obtain ⟨f, hf, hon, _⟩ := fragOkB_parts h
+  simp [noBAt, isBSpread, hf, hon]
+
 mutual
   /-- at no abstract position below is a fragment on the abstract type itself spread -/
   def noBSel (s : Schema) (q : Query) : Sel → Bool
@@ -1517,6 +1523,13 @@ mutual
           simp only [hid, Bool.and_eq_true] at hty henv hst ⊢
           simp only [fieldOfSelV, hsf, leafNameV, hid, Option.some.injEq] at hf
           subst hf
+          have hlg : loneG sub = none ∧ absOkS c.s c.q c.o (.interface k) sub = true := by
+            rcases absOkL_cases hty.2 with ⟨hok, hlg⟩ | ⟨g, rfl, hokB⟩
+            · exact ⟨hlg, hok⟩
+            · have := noBAt_lone_false hokB
+              simp [hid, TypeId.isAbstract, this] at hnbx
+          obtain ⟨hlg, hok⟩ := hlg
+          simp only [hlg] at henv
           obtain ⟨hs, hve, hesub⟩ := henv
           have hID : pfx ++ c.cs.camel (a.getD sf.name) ≠ "ID" := by
             unfold AbsEnv at hs; split at hs
@@ -1529,13 +1542,20 @@ mutual
             (conformsAt c.s (.interface k) (expandSels c.q sub)) (canonAbsS c.s c.q c.o.skipNone sub) ?_ _ hwf).2 v y hst hd
           intro j w hc hdw
           exact rtAbsS e c _ _ (.interface k) sub (fun x hx => IH _ x hx) (fun t isub hm x hx => IHI t isub hm _ x hx)
-            hty.1.1 hty.1.2 hty.2 hesub hve hro.1.2 hro.1.1 (fun vt hvt => nodup_iff'.mp (hro.2 vt hvt))
+            hty.1.1 hty.1.2 hok hesub hve hro.1.2 hro.1.1 (fun vt hvt => nodup_iff'.mp (hro.2 vt hvt))
             (by simpa [hid, TypeId.isAbstract] using hnbx.1) hnbx.2 hs b _ _
             (by omega) (by omega) j w hc hdw
         | union k =>
           simp only [hid, Bool.and_eq_true] at hty henv hst ⊢
           simp only [fieldOfSelV, hsf, leafNameV, hid, Option.some.injEq] at hf
           subst hf
+          have hlg : loneG sub = none ∧ absOkS c.s c.q c.o (.union k) sub = true := by
+            rcases absOkL_cases hty.2 with ⟨hok, hlg⟩ | ⟨g, rfl, hokB⟩
+            · exact ⟨hlg, hok⟩
+            · have := noBAt_lone_false hokB
+              simp [hid, TypeId.isAbstract, this] at hnbx
+          obtain ⟨hlg, hok⟩ := hlg
+          simp only [hlg] at henv
           obtain ⟨hs, hve, hesub⟩ := henv
           have hID : pfx ++ c.cs.camel (a.getD sf.name) ≠ "ID" := by
             unfold AbsEnv at hs; split at hs
@@ -1548,7 +1568,7 @@ mutual
             (conformsAt c.s (.union k) (expandSels c.q sub)) (canonAbsS c.s c.q c.o.skipNone sub) ?_ _ hwf).2 v y hst hd
           intro j w hc hdw
           exact rtAbsS e c _ _ (.union k) sub (fun x hx => IH _ x hx) (fun t isub hm x hx => IHI t isub hm _ x hx)
-            hty.1.1 hty.1.2 hty.2 hesub hve hro.1.2 hro.1.1 (fun vt hvt => nodup_iff'.mp (hro.2 vt hvt))
+            hty.1.1 hty.1.2 hok hesub hve hro.1.2 hro.1.1 (fun vt hvt => nodup_iff'.mp (hro.2 vt hvt))
             (by simpa [hid, TypeId.isAbstract] using hnbx.1) hnbx.2 hs b _ _
             (by omega) (by omega) j w hc hdw
         | input k => simp [hid] at hty
@@ -1831,15 +1851,25 @@ mutual
           | arr _ => simp [conformsV] at hcv
         | interface k =>
           simp only [hid, Bool.and_eq_true] at hty hst ⊢
+          have hok : absOkS s q o (.interface k) sub = true := by
+            rcases absOkL_cases hty.2 with ⟨hok, _⟩ | ⟨g, rfl, hokB⟩
+            · exact hok
+            · have := noBAt_lone_false hokB
+              simp [hid, TypeId.isAbstract, this] at hnbx
           rw [canonLambdaAbsS]
           exact (norm_canon (conformsAt s (.interface k) (expandSels q sub)) (canonAbsS s q skip sub)
-            (norm_absS s q o skip (.interface k) sub (fun kvs h => IHe true kvs hty.1.2 hnbx.2 h) (IHi hty.1.2 hnbx.2) hty.1.1 hty.1.2 hty.2
+            (norm_absS s q o skip (.interface k) sub (fun kvs h => IHe true kvs hty.1.2 hnbx.2 h) (IHi hty.1.2 hnbx.2) hty.1.1 hty.1.2 hok
               (by simpa [hid, TypeId.isAbstract] using hnbx.1)) _).2 v hst
         | union k =>
           simp only [hid, Bool.and_eq_true] at hty hst ⊢
+          have hok : absOkS s q o (.union k) sub = true := by
+            rcases absOkL_cases hty.2 with ⟨hok, _⟩ | ⟨g, rfl, hokB⟩
+            · exact hok
+            · have := noBAt_lone_false hokB
+              simp [hid, TypeId.isAbstract, this] at hnbx
           rw [canonLambdaAbsS]
           exact (norm_canon (conformsAt s (.union k) (expandSels q sub)) (canonAbsS s q skip sub)
-            (norm_absS s q o skip (.union k) sub (fun kvs h => IHe true kvs hty.1.2 hnbx.2 h) (IHi hty.1.2 hnbx.2) hty.1.1 hty.1.2 hty.2
+            (norm_absS s q o skip (.union k) sub (fun kvs h => IHe true kvs hty.1.2 hnbx.2 h) (IHi hty.1.2 hnbx.2) hty.1.1 hty.1.2 hok
               (by simpa [hid, TypeId.isAbstract] using hnbx.1)) _).2 v hst
         | input k => simp [hid] at hty
     | .spread g, _, _ => by
